@@ -426,3 +426,50 @@ V('C13-skip-ascii-255', 'C13', UE,
   "        if ord(s[p.pos]) < 127:", "        if ord(s[p.pos]) < 256:", 'R13e')
 V('C13-benign', 'C13', UE,
   "        # no protection\n", "        # no protection at all\n", 'SILENT')
+
+
+# ----------------------------------------------------------------------- C16
+SC = 'pylatexenc/macrospec/_specclasses.py'
+AP = 'pylatexenc/macrospec/_argumentsparser.py'
+V('C16-revert-D11', 'C16', SC,
+  "                self.arguments_parser = LatexArgumentsParser(self.arguments_spec_list)",
+  "                self.arguments_parser = LatexArgumentsParser(arguments_spec_list)", 'R16d',
+  'D11: stale local used to build the arguments parser')
+V('C16-revert-D12', 'C16', AP,
+  "            nodeargd._legacy_pyltxenc2_inner_parsing_state = inner_parsing_state",
+  "            nodeargd._legacy_pyltxenc2_inner_parsing_state_delta = inner_parsing_state", 'R16e',
+  'D12: legacy attribute written under another name than the one read')
+V('C16-wrong-parser-class', 'C16', WK,
+  "    parser = parsers.LatexOptionalSquareBracketsParser()",
+  "    parser = parsers.LatexDelimitedGroupParser(delimiters=('[',']'))", 'R16a')
+V('C16-reader-not-at-pos', 'C16', WK,
+  """    nodes, info = self.parse_content(
+        parser,
+        token_reader=self.make_token_reader(pos=pos),
+        parsing_state=parsing_state,
+    )
+
+    if info is not None:
+        logger.warning("Call to get_latex_braced_group() ignores""",
+  """    nodes, info = self.parse_content(
+        parser,
+        token_reader=self.make_token_reader(),
+        parsing_state=parsing_state,
+    )
+
+    if info is not None:
+        logger.warning("Call to get_latex_braced_group() ignores""", 'R16a')
+V('C16-dead-param', 'C16', WK,
+  """    if environmentname is not None and envnode.environmentname != environmentname:
+        raise LatexWalkerParseError(
+            "Expected environment {{{correct_envname}}}, got {{{got_envname}}}".format(
+                correct_envname=environmentname,
+                got_envname=envnode.environmentname
+            )
+        )
+""", "", 'R16b')
+V('C16-len-from-other-node', 'C16', WK,
+  "    p, l = envnode.pos, envnode.len\n", "    p, l = envnode.pos, nodes.len\n", 'R16c')
+V('C16-benign', 'C16', WK,
+  "    # parse a single node and then we'll verify that it was the correct\n    # environment node\n    parser = parsers.LatexSingleNodeParser()",
+  "    # parse a single node, then verify that it was the correct\n    # environment node\n    parser = parsers.LatexSingleNodeParser()", 'SILENT')
